@@ -1,7 +1,7 @@
 //! Procedural macros to build biscuit-auth tokens and authorizers
 
 use biscuit_parser::{
-    builder::{Check, Fact, Policy, Rule},
+    builder::{Check, Fact, Policy, Rule, Scope},
     error,
     parser::{parse_block_source, parse_source},
 };
@@ -203,6 +203,7 @@ struct Builder {
     // parameters provided to the macro
     pub macro_parameters: HashSet<String>,
 
+    pub scopes: Vec<Scope>,
     pub facts: Vec<Fact>,
     pub rules: Vec<Rule>,
     pub checks: Vec<Check>,
@@ -225,6 +226,7 @@ impl Builder {
             datalog_parameters: HashSet::new(),
             macro_parameters,
 
+            scopes: Vec::new(),
             facts: Vec::new(),
             rules: Vec::new(),
             checks: Vec::new(),
@@ -241,6 +243,7 @@ impl Builder {
         let mut builder = Builder::new(builder_type, target, parameters);
         let source = parse_block_source(source.as_ref())?;
 
+        builder.scopes(source.scopes);
         builder.facts(source.facts.into_iter().map(|(_name, fact)| fact));
         builder.rules(source.rules.into_iter().map(|(_name, rule)| rule));
         builder.checks(source.checks.into_iter().map(|(_name, check)| check));
@@ -265,6 +268,16 @@ impl Builder {
 
         builder.validate()?;
         Ok(builder)
+    }
+
+    /// the block's own `trusting ...` scopes
+    fn scopes(&mut self, scopes: Vec<Scope>) {
+        for scope in &scopes {
+            if let Scope::Parameter(name) = scope {
+                self.datalog_parameters.insert(name.clone());
+            }
+        }
+        self.scopes = scopes;
     }
 
     fn facts(&mut self, facts: impl Iterator<Item = Fact>) {
@@ -452,6 +465,28 @@ impl ToTokens for Builder {
             }
         };
 
+        // the block's own scopes; a scope parameter takes a public key
+        let scopes_quote = self.scopes.iter().map(|scope| match scope {
+            Scope::Parameter(name) => {
+                let ident = Ident::new(name, Span::call_site());
+                quote! {
+                    __biscuit_auth_builder = __biscuit_auth_builder.scope(
+                        match ::biscuit_auth::builder::ToAnyParam::to_any_param(&#ident) {
+                            ::biscuit_auth::builder::AnyParam::PublicKey(key) => {
+                                ::biscuit_auth::builder::Scope::PublicKey(key)
+                            }
+                            ::biscuit_auth::builder::AnyParam::Term(_) => {
+                                panic!("the scope parameter {} takes a public key", #name)
+                            }
+                        },
+                    );
+                }
+            }
+            scope => quote! {
+                __biscuit_auth_builder = __biscuit_auth_builder.scope(#scope);
+            },
+        });
+
         let mut items = self
             .facts
             .iter()
@@ -488,6 +523,7 @@ impl ToTokens for Builder {
             {
                 #builder_quote
                 #params_quote
+                #(#scopes_quote)*
                 #(#items)*
                 __biscuit_auth_builder
             }
